@@ -114,6 +114,17 @@ def run_matrix(ctx, configs, want_hashes=True, workers=16):
         t.start()
     for t in threads:
         t.join()
+    # a configuration that failed is tried once more, alone and in a fresh target directory: a build that fails for a reason of its own fails
+    # again; one that was starved (out of memory with 16 compilers at once on a loaded machine) or skipped by cargo's freshness cache does not
+    again = sorted(k for k, v in results.items() if "error" in v)
+    if again and len(again) <= 8:
+        first = {k: results[k] for k in again}
+        for n_, k in enumerate(again):
+            q.put(k)
+            results.pop(k, None)
+            worker(1000 + n_)
+            if k not in results:
+                results[k] = first[k]
     shutil.rmtree(root, ignore_errors=True)
     with open(cpath + ".tmp", "w") as f:
         json.dump(results, f)
